@@ -33,13 +33,24 @@ def _case(draw):
     }
 
 
+@st.composite
+def _lowprec_case(draw):
+    """Factors kept in bfloat16 become measurably indefinite once the identity initialisation has decayed (small decay, several
+    steps, rank-deficient batches); the eigen method must then treat them as PSD whatever the inverse dtype is."""
+    c = draw(_case())
+    c.update(method='eigen', prediv=draw(st.booleans()), colocate=True, factor_dtype='bfloat16',
+             inv_dtype=draw(st.sampled_from(['float64', 'float64', 'float32'])),
+             decay=draw(st.sampled_from([0.1, 0.3, 0.05, 0.5])), steps=draw(st.integers(3, 8)), N=draw(st.integers(1, 3)), lowprec=True)
+    return c
+
+
 class C01(Prop):
     id = 'C01'
     title = 'Preconditioned gradient solves the damped Kronecker-factored system'
     rule = ('Hypothesis draws a runnable model of 1-3 supported layers (linear incl. N-d inputs, conv2d with rectangular kernels/strides/'
             'paddings, bias on/off, subclasses), batch 1-6, data style, damping log-uniform in [1e-3,10], decay in (0,1], method x '
             'pre-divided eigenvalues x colocate, parameter dtype float32/float64, factor dtype None/float32/float64/bfloat16, inverse dtype '
-            'float32/float64, 1-4 steps with SGD weight updates in between, clipping off (1e30) or active. Oracle: D recorded on a twin model '
+            'float32/float64, 1-4 steps with SGD weight updates in between, clipping off (1e30) or active; one case in five is a low-precision long run (eigen method, bfloat16 factors, decay <= 0.5, 3-8 steps, batch 1-3, inverse dtype float64/float32) in which the stored factors become measurably indefinite. Oracle: D recorded on a twin model '
             'without K-FAC, A and G read from state_dict() after the step, V_ref from a float64 dense solve of the system named in the '
             'statement (Kronecker form for eigen), nu_ref from the clip formula; ||grad - nu_ref V_ref||_F <= 16 sqrt(n) eps kappa ||V_ref||_F, and '
             'the residual of the defining system is within the same bound. Non-trivial: tolerance <= 5e-2 and V_ref differs by more than '
@@ -50,11 +61,11 @@ class C01(Prop):
                    'kappa from the float64 system (product form for eigen, sum of the two factor condition numbers for inverse)']
     examples = {'quick': 500, 'thorough': 2000}
     shards = {'quick': 4, 'thorough': 16}
-    required_labels = {'quick': ['nontrivial=True', 'method=eigen', 'method=inverse', 'has_conv=True', 'clip=active'],
-                       'thorough': ['nontrivial=True', 'method=eigen', 'method=inverse', 'has_conv=True', 'clip=active']}
+    required_labels = {'quick': ['nontrivial=True', 'method=eigen', 'method=inverse', 'has_conv=True', 'clip=active', 'lowprec_long_run=True'],
+                       'thorough': ['nontrivial=True', 'method=eigen', 'method=inverse', 'has_conv=True', 'clip=active', 'lowprec_long_run=True']}
 
     def strategy(self, tier):
-        return _case()
+        return st.one_of(_case(), _case(), _case(), _case(), _lowprec_case())
 
     def summarize(self, infos):
         tols = sorted(i['tol'] for i in infos if 'tol' in i)
@@ -91,7 +102,7 @@ class C01(Prop):
             eps = max(eps, refkfac.EPS[kmodel.dt(c['factor_dtype']) or pd])
         labels = {'method': c['method'], 'prediv': c['prediv'], 'clip': c['clip'], 'param_dtype': c['param_dtype'],
                   'factor_dtype': str(c['factor_dtype']), 'inv_dtype': c['inv_dtype'], 'steps': c['steps'],
-                  'has_conv': any(L['t'] == 'conv' for L in c['spec']['layers']), 'style': c['style']}
+                  'has_conv': any(L['t'] == 'conv' for L in c['spec']['layers']), 'style': c['style'], 'lowprec_long_run': bool(c.get('lowprec'))}
         nontrivial = False
         worst = 0.0
         worst_tol = 0.0
